@@ -34,3 +34,12 @@ func VerifC15BPs(c consensus.Consensus) []string {
 	}
 	return out
 }
+
+// VerifC15LibNo is the number of the last irreversible block (what VerifyTimestamp and NeedReorganization compare with).
+func VerifC15LibNo(c consensus.Consensus) types.BlockNo {
+	d := c.(*DPoS)
+	if d.Status == nil {
+		return 0
+	}
+	return d.libNo()
+}
